@@ -73,12 +73,25 @@ Inductive iop :=
 | IToggle (by_contract : bool) (k : Z)
 | IUpdateAlias (denom a : Z)
 | IRemove (denom : Z)                                         (* conversion attempted on a pair whose contract is dead *)
-| IExportImport.   (* genesis export + InitChain of a new application on the exported file: ExportGenesis writes params and
-                      the pairs, InitGenesis runs AddTokenPair (pair, denom index, contract index) on each; the bank module
-                      carries the metadata over.  The alias index is neither exported nor rebuilt. *)
+| IExportImport (rebuild : bool).
+   (* genesis export + InitChain of a new application on the exported file: ExportGenesis writes params and the pairs,
+      InitGenesis runs AddTokenPair (pair, denom index, contract index) on each; the bank module carries the metadata
+      over.  The alias index is not part of the genesis state:
+        rebuild = false   it is simply gone (InitGenesis as it was when finding C08-2 was made);
+        rebuild = true    InitGenesis sets, for every imported pair, the aliases listed in the bank metadata of its denom.
+      Which of the two the code under check does is probed on the real application by the harness. *)
 
 Definition eq_aliases (a b : list Z) : bool :=
   (Z.of_nat (length a) =? Z.of_nat (length b)) && forallb (fun p => fst p =? snd p) (combine a b).
+
+(* the aliases the bank metadata lists for denom d *)
+Definition meta_aliases (s : istate) (d : Z) : list Z := match oget d (meta s) with Some l => l | None => [] end.
+(* the alias index rebuilt from the bank metadata of every registered denom (the imported pairs are the live entries of the
+   denom index; an alias belongs to one registered denom only as long as the indexes are consistent, so the order of the
+   pairs does not matter there) *)
+Definition rebuild_from (s : istate) (l : omap pid) : omap Z :=
+  fold_right (fun e m => if ohas (fst e) (by_denom s) then set_aliases (fst e) (meta_aliases s (fst e)) m else m) [] l.
+Definition rebuild_aliases (s : istate) : omap Z := rebuild_from s (by_denom s).
 
 Definition irun (o : iop) (s : istate) : option istate :=
   match o with
@@ -146,7 +159,9 @@ Definition irun (o : iop) (s : istate) : option istate :=
                 meta := meta s; mstyle := mstyle s |}
       end
     end
-  | IExportImport => Some {| pairs := pairs s; by_denom := by_denom s; by_erc := by_erc s; alias := []; meta := meta s; mstyle := mstyle s |}
+  | IExportImport rebuild =>
+    Some {| pairs := pairs s; by_denom := by_denom s; by_erc := by_erc s;
+            alias := if rebuild then rebuild_aliases s else []; meta := meta s; mstyle := mstyle s |}
   end.
 
 Definition istep (s : istate) (o : iop) : istate * bool :=
